@@ -33,9 +33,9 @@ Inductive case :=
 (* an `or` of `x matches /re/` operands: per operand the identity of its left
    operand (the key a sound grouping must respect), the verdict of the operand
    evaluated alone (same bindings), and the verdict of the whole `or` *)
-| KReSet (lhs_ids : list nat) (alone : list bool) (verdict : bool)
+| KReSet (lhs_ids : list nat) (alone : list bool) (verdict : bool) (scan_errors : nat)
 (* a condition with loops, compiled without / with condition_optimization: verdict per buffer *)
-| KHoist (unoptimised optimised : list bool).
+| KHoist (unoptimised optimised : list bool) (scan_errors : nat).
 
 (* ------------------------------------------------------------ K *)
 Definition lookup {A} (l : list (option A)) : nat -> option A := fun n => nth n l None.
@@ -111,12 +111,12 @@ Definition check_case (k : case) : bool :=
       end
   | KBounds c h ob oh runs => bounds_k c h ob oh runs
   | KScan rules bits fl dumps => scan_k rules bits fl dumps
-  | KReSet ids alone v =>
+  | KReSet ids alone v _ =>
       (* the grouping model with the identity of the left operand as key; regexp i is the one of operand i *)
       let ops := map (fun il => mkMop (Z.of_nat (snd il)) (snd il) (fst il)) (combine (seq 0 (List.length ids)) ids) in
       let mt := fun l r => Nat.eqb l (nth r ids 0%nat) && nth r alone false in
       Bool.eqb (or_grouped mt ops) v
-  | KHoist _ _ => true
+  | KHoist _ _ _ => true
   end.
 
 (* ------------------------------------------------------------ S *)
@@ -160,6 +160,6 @@ Definition spec_case (k : case) : bool :=
       forallb (fun r => Bool.eqb (br_main r) (br_twin r) &&
                         (negb h || negb (br_twin r) || (contains ob (br_n r) && is_satisfied oh (br_data r)))) runs
   | KScan _ _ fl dumps => scan_s fl dumps
-  | KReSet _ alone v => Bool.eqb v (existsb (fun b => b) alone)
-  | KHoist u o => blist_eqb u o
+  | KReSet _ alone v e => Nat.eqb e 0 && Bool.eqb v (existsb (fun b => b) alone)
+  | KHoist u o e => Nat.eqb e 0 && blist_eqb u o
   end.
